@@ -1,5 +1,5 @@
 (** C09 - derives and repr follow the write options exactly. *)
-From W2W Require Import Wf GenInv StructSpec StructProof.
+From W2W Require Import Wf GenInv StructSpec StructProof Render.
 
 (** Table: every emitted struct derives Debug, Clone, PartialEq; Copy and repr(C) unless it ends in a
     runtime-sized array; Pod/Zeroable exactly when (host-shareable and the host switch) or (not
@@ -66,3 +66,17 @@ Proof.
     inversion Hs; inversion Hs'. reflexivity.
 Qed.
 Print Assumptions C09_fields_only_mv.
+
+(** ... and at the level of the returned text ([Render.render] = the token stream of the module): under any two option
+    records the generated programs are the struct section of each followed by one and the same token sequence - no
+    option changes any token outside the struct definitions *)
+Theorem C09_non_interference_text : forall m src inc o o' a b,
+  gen m src inc o = Ok a -> gen m src inc o' = Ok b ->
+  exists rest, render a = flat_map r_struct (o_structs a) ++ rest /\ render b = flat_map r_struct (o_structs b) ++ rest.
+Proof.
+  intros m src inc o o' a b Ha Hb. pose proof (C09_non_interference m src inc o o' a b Ha Hb) as H.
+  exists (render_rest (strip a)). split.
+  - destruct a; reflexivity.
+  - rewrite H. destruct b; reflexivity.
+Qed.
+Print Assumptions C09_non_interference_text.
